@@ -29,7 +29,8 @@ Inductive tok :=
 | TCb (i : N) | TCe (i : N)       (* before/afterExecutingContent *)
 | TLog (v : Z)
 | TStable
-| TComplB | TComplE.
+| TComplB | TComplE
+| TDiag (flags : N).            (* emitted by Spec only: classification of the microstep, see Spec.diag *)
 
 (* return codes of step() as in InterpreterState.h; regenerated values are checked elsewhere *)
 Definition RC_FINISHED : N := 0.
